@@ -12,6 +12,7 @@ THEOREMS = [
     "C06.order_numeric", "C06.order_num_lt_word", "C06.order_prefix",
     "C06.order_split_at_separator", "C06.order_split_skip", "C06.order_split_word", "C06.order_release_lt_master",
     "C06.order_sorted", "C06.tag_release", "C06.tag_saved_version", "C06.tag_unknown_version", "C06.tag_ignored", "C06.match_is_substring",
+    "C06.packed_refs_records", "C06.stored_refs_exact", "C06.stored_tag_names",
     "C06.report_branches", "C06.no_nonmatching", "C06.only_matching", "C06.under_minimal_build",
     "C06.exactly_once", "C06.not_merged_exact", "C06.at_most_once", "C06.build_title", "C06.pseudo_title",
     "C06.report_total", "C06.report_total_single",
@@ -39,13 +40,25 @@ RULE = ("random commit graphs (6-16 commits, 8% extra roots, 30% merges incl. oc
         "a sync() whose fetch raises, or a successful one: every report must be right for the repository as it is then; about "
         "half of the refs of the git stand-in are loose (iter_refs yields None, get_ref_commit is asked); the version file of "
         "master-style builds is bumped between commits. "
+        "where the refs are kept is a dimension (700 `repd` cases, 12000 in thorough): the refs of the history are written into "
+        "a git directory under /tmp (removed afterwards) and read by the production GitRepo.iter_refs / _iter_packed_refs / "
+        "_iter_refs_files: all refs loose, all packed, tags packed and branches loose, a random split, packed-refs ending with "
+        "a build tag / another tag / a branch of the remote (build tags in the first, a middle and the LAST record), "
+        "lightweight and annotated tags (`^` lines, also as the last line), outdated packed records of loose refs, refs of other "
+        "namespaces and remotes, with and without a comment line, blank lines, CRLF, with and without a line break after the "
+        "last line, no packed-refs file at all; 4% malformed files (unknown comment line, bad `^` line, one-word line: "
+        "compared with the model, not judged). "
         "non-trivial = at least one matching commit reachable from a release/master head; distinct by protocol line")
 TRUSTED = ["tests/mock_git.py (synthetic git objects fed to the real ak.ghist code)",
+           "the object database of the `repd` cases: GitPython is not installed, so commit(), remotes and get_ref_commit() "
+           "(reads the file of the loose ref) of the GitRepo subclass are the harness'; iter_refs and what it calls are the code's",
            "order of remote.refs (sorted by name, as mock_git and GitPython list them) — decides ties of equal sort keys only",
            "re / int() on tag and branch names (ASCII names without line breaks: \\d = 0-9, int() = decimal value)",
            "the project-specific reading of the version file (tests-style `_read_saved_build_num_from_file`: major.minor)"]
 ASSUMPTIONS = ["no build tag has the number of a pseudo build (9999.9999.9999, 8888.8888.8888): the report recognises the pseudo "
-               "builds by their number",
+               "builds by their number — on the real code a tag 9999.9999.9999 is titled '- not merged -' and a tagged build "
+               "8888.8888.8888 '- not built -' (NoFakeTags in pseudo_title; such tags are never generated)",
+               "packed-refs is ASCII text with \\n or \\r\\n line ends (no lone \\r), as git writes it",
                "commit times inside the 30-day window (quantifier of the property; Hist.InWindow in the theorems: no commit is more than "
                "_OBSOLETE_BRANCH_CUTOFF_PERIOD younger than the head of a release/master branch). Outside it the code drops "
                "branches as obsolete; the model does the same and is compared with the code there, the oracle does not judge",
@@ -54,7 +67,59 @@ ASSUMPTIONS = ["no build tag has the number of a pseudo build (9999.9999.9999, 8
                "like the code's '?' it sorts after every real number and equals itself)",
                "fewer than 10^9 report commits (pseudo build ids start at 1_000_000_000)"]
 
-translate = G.translate
+def refs_constants(repo):
+    """the literal pieces of GitRepo._iter_packed_refs: the first character of a comment / peeled line, the words a
+    comment line has to contain, the length of a peeled line"""
+    import ast
+    import os
+    tree = ast.parse(open(os.path.join(repo, "ak", "ghist.py")).read())
+    f = G._find(G._find(tree, ast.ClassDef, "GitRepo"), ast.FunctionDef, "_iter_packed_refs")
+    out = {}
+    for node in ast.walk(f):
+        if not (isinstance(node, ast.If) and isinstance(node.test, ast.Compare) and len(node.test.ops) == 1
+                and isinstance(node.test.ops[0], ast.Eq) and isinstance(node.test.left, ast.Subscript)
+                and isinstance(node.test.left.value, ast.Name) and node.test.left.value.id == "line"
+                and isinstance(node.test.left.slice, ast.Constant) and node.test.left.slice.value == 0):
+            continue
+        ch = ast.literal_eval(node.test.comparators[0])
+        if not (isinstance(ch, str) and len(ch) == 1 and 32 < ord(ch) < 127 and ch not in "'\\"):
+            raise ValueError("unexpected line marker %r in _iter_packed_refs" % (ch,))
+        words = lens = None
+        for m in ast.walk(node):
+            if isinstance(m, ast.GeneratorExp) and isinstance(m.elt, ast.Compare) and isinstance(m.elt.ops[0], ast.NotIn) \
+                    and isinstance(m.generators[0].iter, ast.List):
+                words = [ast.literal_eval(e) for e in m.generators[0].iter.elts]
+            if isinstance(m, ast.Compare) and isinstance(m.left, ast.Call) and getattr(m.left.func, "id", None) == "len" \
+                    and isinstance(m.ops[0], ast.NotEq):
+                lens = ast.literal_eval(m.comparators[0])
+        if words is not None and lens is None and "commentChar" not in out:
+            out["commentChar"], out["headerWords"] = ch, words
+        elif lens is not None and words is None and "peeledChar" not in out and isinstance(lens, int):
+            out["peeledChar"], out["peeledLineLen"] = ch, lens
+        else:
+            raise ValueError("unexpected branch on line[0] == %r in _iter_packed_refs" % ch)
+    if sorted(out) != ["commentChar", "headerWords", "peeledChar", "peeledLineLen"]:
+        raise ValueError("_iter_packed_refs has an unexpected shape")
+    return out
+
+
+def translate(repo):
+    files = dict(G.translate(repo))
+    c = refs_constants(repo)
+    files["AkVerif/Gen/GhistRefs.lean"] = (
+        "-- GENERATED by harness/c06.py:translate from /repo/ak/ghist.py (GitRepo._iter_packed_refs) -- do not edit\n"
+        "namespace Gen.GhistRefs\n"
+        "/-- first character of a comment line of packed-refs -/\n"
+        "def commentChar : Char := '%s'\n"
+        "/-- first character of the line that gives the commit of an annotated tag -/\n"
+        "def peeledChar : Char := '%s'\n"
+        "/-- what a comment line has to contain -/\n"
+        "def headerWords : List (List Char) := [%s]\n"
+        "/-- length of a peeled line (marker + hexsha) -/\n"
+        "def peeledLineLen : Nat := %d\n"
+        "end Gen.GhistRefs\n") % (c["commentChar"], c["peeledChar"],
+                                  ", ".join(G._lean_str(w) + ".toList" for w in c["headerWords"]), c["peeledLineLen"])
+    return files
 
 
 # ------------------------------------------------------------------ real code
@@ -96,6 +161,96 @@ def run_real(h):
 
 class SecondCallDiffers(Exception):
     pass
+
+
+# ---- refs kept in a git directory on disk, read by the production GitRepo.iter_refs
+_DISK = {}
+
+
+def disk_class():
+    """GitRepo whose refs live in a git directory (packed-refs file + files below refs/): iter_refs,
+    _iter_packed_refs and _iter_refs_files are the production code; only the object database is the in-memory one of
+    tests/mock_git (GitPython is not installed): commit(), remotes; get_ref_commit() reads the file of a loose ref"""
+    if _DISK:
+        return _DISK["cls"]
+    import os
+    from ak.ghist import GitRepo
+
+    class DiskGit(GitRepo):
+        def __init__(self, mock, git_dir):      # pylint: disable=super-init-not-called
+            self.mock = mock
+            self.name = mock.name
+            self.git_dir = git_dir
+            self.working_dir = os.path.dirname(git_dir)
+            self.remotes = mock.remotes
+
+        def commit(self, hexsha):
+            return self.mock.commits_by_hexsha[hexsha]
+
+        def get_ref_commit(self, ref_name):
+            with open(os.path.join(self.git_dir, ref_name)) as f:
+                return self.commit(f.read().strip())
+    _DISK["cls"] = DiskGit
+    return DiskGit
+
+
+def write_store(git_dir, store):
+    import os
+    os.makedirs(os.path.join(git_dir, "refs"))
+    if store["packed"] is not None:
+        with open(os.path.join(git_dir, "packed-refs"), "w", newline="") as f:
+            f.write(store["packed"])
+    for name, sha in store["loose"]:
+        path = os.path.join(git_dir, name)
+        os.makedirs(os.path.dirname(path), exist_ok=True)
+        with open(path, "w") as f:
+            f.write(sha + "\n")
+
+
+def run_real_disk(h, store):
+    """the report of a repository whose refs are read from a temporary git directory (removed afterwards)"""
+    import os
+    import shutil
+    import tempfile
+    k = G.repo_classes()
+    from ak.ghist import ReposCollection
+    text = h.get("text", TEXT)
+    mock = G.mock_repo(h, "r", text)
+    for c in mock.all_commits.values():          # the commit ids of the request
+        c.hexsha = store["shas"][c.intid - 1]
+    mock.commits_by_hexsha = {c.hexsha: c for c in mock.all_commits.values()}
+    top = tempfile.mkdtemp(prefix="c06_refs_", dir="/tmp")
+    try:
+        write_store(os.path.join(top, ".git"), store)
+        repo = disk_class()(mock, os.path.join(top, ".git"))
+        rc = ReposCollection({"r": k["StdTestRepo"]("r", repo, G.REMOTE)})
+        data = rc.make_reports_data(text)
+        again = rc.make_reports_data(text)
+        if _report_text(again[0][1]) != _report_text(data[0][1]):
+            raise SecondCallDiffers(_report_text(again[0][1]))
+        return data[0][1]
+    finally:
+        shutil.rmtree(top, ignore_errors=True)
+
+
+def enc_store(store):
+    return "%s %s %s" % (";".join(store["shas"]) or "-",
+                         "~" if store["packed"] is None else enc_str(store["packed"]),
+                         ";".join("%s:%s" % (enc_str(n), sha) for n, sha in store["loose"]) or "-")
+
+
+def dec_store(shas, packed, loose):
+    return {"shas": [] if shas == "-" else shas.split(";"),
+            "packed": None if packed == "~" else dec_str(packed),
+            "loose": [] if loose == "-" else [[dec_str(t.split(":")[0]), t.split(":")[1]] for t in loose.split(";")]}
+
+
+def line_hist(line):
+    """(history, ref storage or None) of a `rep` / `repd` line"""
+    op, *args = line.split()
+    if op == "repd":
+        return G.dec_hist(*args[:4]), dec_store(*args[4:7])
+    return G.dec_hist(*args), None
 
 
 def run_seq(hs, sync):
@@ -141,13 +296,16 @@ def impl(case):
         except Exception as e:
             return ["err " + type(e).__name__] * len(case["lines"])
     for line in case["lines"]:
-        op, *args = line.split()
-        if op != "rep":
+        op = line.split()[0]
+        if op not in ("rep", "repd"):
             out.append("bad-op")
             continue
         try:
-            h = G.dec_hist(*args)
-            out.append(_report_text(G.with_timeout(2, run_real, h)))
+            h, store = line_hist(line)
+            if store is None:
+                out.append(_report_text(G.with_timeout(2, run_real, h)))
+            else:
+                out.append(_report_text(G.with_timeout(2, run_real_disk, h, store)))
         except Exception as e:
             out.append("err " + type(e).__name__)
     return out
@@ -224,14 +382,43 @@ def parse_report(rep):
     return out
 
 
+_HEX40 = re.compile(r"[0-9a-f]{40}$")
+
+
+def store_wellformed(store):
+    """the packed-refs text is what git writes: comment lines naming the format, `<hexsha> <ref name>` lines, each
+    possibly followed by a `^<hexsha>` line.  Anything else is outside the property (compared with the model only)"""
+    if store["packed"] is None:
+        return True
+    prev_ref = False
+    for line in store["packed"].replace("\r\n", "\n").split("\n"):
+        if line.strip() == "":
+            continue
+        if line.startswith("#"):
+            if not (line.startswith("# pack-refs with:") and " peeled " in line + " "):
+                return False
+            prev_ref = False
+        elif line.startswith("^"):
+            if not (prev_ref and _HEX40.match(line[1:])):
+                return False
+            prev_ref = False
+        else:
+            w = line.split(" ")
+            if len(w) != 2 or not _HEX40.match(w[0]) or not w[1].startswith("refs/"):
+                return False
+            prev_ref = True
+    return True
+
+
 def oracle(case, replies):
     for line, rep in zip(case["lines"], replies):
-        op, *args = line.split()
-        if op != "rep":
+        if line.split()[0] not in ("rep", "repd"):
+            continue
+        h, store = line_hist(line)
+        if store is not None and not store_wellformed(store):
             continue
         if not rep.startswith("ok"):
             return "crash: the report is not produced (%s)" % rep
-        h = G.dec_hist(*args)
         msg = check_report(h, parse_report(rep))
         if msg:
             return msg
@@ -474,6 +661,111 @@ def mk_case(h, kind, noise=None):
     return {"lines": ["rep " + G.enc_hist(h)], "meta": {"kind": kind}}
 
 
+# ---- the refs of a history as a git directory
+PACK_HEADERS = ["# pack-refs with: peeled fully-peeled sorted ", "# pack-refs with: peeled fully-peeled ",
+                "# pack-refs with: peeled "]
+LAYOUT_MODES = ["all-loose", "all-packed", "tags-packed", "random", "build-tag-last", "other-tag-last", "branch-last"]
+EXTRA_REFS = ["refs/heads/master", "refs/heads/work/x", "refs/remotes/upstream/master", "refs/remotes/origin2/release/9.9",
+              "refs/stash", "refs/notes/commits", "refs/tagsx/build_1_release_1_1_success", "refs/tags/aaa-first",
+              "refs/tags/v9.9", "refs/tags/zz-last"]           # none is a build tag or a branch of the remote
+
+
+def commit_shas(n, salt):
+    import hashlib
+    return [hashlib.sha1(("%s-c%d" % (salt, i)).encode()).hexdigest() for i in range(n)]
+
+
+def is_build_tag_ref(name):
+    return name.startswith("refs/tags/") and G._TAG_BUILD.match(name[len("refs/tags/"):]) is not None
+
+
+def render_store(h, layout):
+    """the refs of the history written the way git keeps them: one file per loose ref, the others in packed-refs
+    (sorted by name; an annotated tag = the hexsha of the tag object and a `^` line with the commit; a loose ref may
+    have an outdated entry in packed-refs as well).  Deterministic in (h, layout)."""
+    import hashlib
+    import random
+    rnd = random.Random(layout["seed"])
+    mode = layout["mode"]
+    shas = commit_shas(len(h["commits"]), layout["seed"])
+    refs = {}
+    for i, c in enumerate(h["commits"]):
+        for n in G.commit_tag_names(c):
+            refs["refs/tags/" + n] = shas[i]
+    for n, hd in h["refs"]:
+        refs["refs/remotes/%s/%s" % (G.REMOTE, n)] = shas[hd]
+    for n in rnd.sample(EXTRA_REFS, rnd.randint(0, 4)):
+        refs.setdefault(n, rnd.choice(shas))
+    if mode == "other-tag-last":
+        refs.setdefault("refs/tags/zz-last", rnd.choice(shas))
+    names = sorted(refs)
+    builds = [n for n in names if is_build_tag_ref(n)]
+    if mode == "all-loose":
+        packed = set()
+    elif mode in ("all-packed", "other-tag-last"):
+        packed = set(names)
+    elif mode == "tags-packed":
+        packed = {n for n in names if n.startswith("refs/tags/") and rnd.random() < 0.8}
+    elif mode == "build-tag-last":
+        k = rnd.choice(builds) if builds and rnd.random() < 0.5 else (builds[-1] if builds else None)
+        packed = {n for n in names if k is not None and n <= k and (n == k or rnd.random() < 0.8)}
+    elif mode == "branch-last":
+        packed = {n for n in names if not n.startswith("refs/tags/") and n < "refs/stash"}
+    else:
+        packed = {n for n in names if rnd.random() < 0.5}
+    # a ref whose path is a directory of another loose ref cannot be a file
+    loose = [n for n in names if n not in packed]
+    for n in list(loose):
+        if any(m.startswith(n + "/") for m in loose):
+            loose.remove(n)
+            packed.add(n)
+    p_ann = rnd.choice([0.0, 0.0, 0.5, 1.0])
+    p_stale = rnd.choice([0.0, 0.3])
+    lines = []
+    for n in names:
+        stale = n not in packed and len(shas) > 1 and rnd.random() < p_stale
+        if n not in packed and not stale:
+            continue
+        sha = rnd.choice([x for x in shas if x != refs[n]]) if stale else refs[n]
+        if n.startswith("refs/tags/") and rnd.random() < p_ann:
+            lines.append("%s %s" % (hashlib.sha1(n.encode()).hexdigest(), n))
+            lines.append("^" + sha)
+        else:
+            lines.append("%s %s" % (sha, n))
+    r = rnd.random()
+    if r < 0.8:
+        lines.insert(0, PACK_HEADERS[0])
+    elif r < 0.9:
+        lines.insert(0, rnd.choice(PACK_HEADERS[1:]))
+    if rnd.random() < 0.08 and lines:
+        lines.insert(rnd.randrange(len(lines) + 1), rnd.choice(["", "  "]))
+    bad = layout.get("bad")
+    if bad == "header":
+        lines.insert(0, rnd.choice(["# pack-refs with: sorted", "# comment", "#"]))
+    elif bad == "peeled":
+        lines.insert(rnd.randrange(1, len(lines) + 1) if lines else 0, rnd.choice(["^abc", "^" + shas[0] + "0", "^"]))
+    elif bad == "one-word":
+        lines.insert(rnd.randrange(len(lines) + 1), rnd.choice([shas[0], "refs/tags/x"]))
+    nl = "\r\n" if rnd.random() < 0.05 else "\n"
+    text = nl.join(lines) + (nl if rnd.random() < 0.7 else "")
+    if mode == "all-loose" and not bad and rnd.random() < 0.5:
+        text = None
+    return {"shas": shas, "packed": text, "loose": [[n, refs[n]] for n in loose]}
+
+
+def mk_disk_case(h, layout, kind="refs-on-disk"):
+    """the report of a repository whose refs are read from a git directory by the production GitRepo.iter_refs"""
+    store = render_store(h, layout)
+    return {"lines": ["repd " + G.enc_hist(h) + " " + enc_store(store)], "meta": {"kind": kind, "layout": layout}}
+
+
+def gen_layout(rng, k):
+    layout = {"mode": LAYOUT_MODES[k % len(LAYOUT_MODES)], "seed": rng.randrange(1 << 30)}
+    if rng.random() < 0.04:
+        layout["bad"] = rng.choice(["header", "peeled", "one-word"])
+    return layout
+
+
 def mk_seq_case(rng, h, sync):
     """two reports on the same collection object; in between the heads move (and a ref may appear or go)"""
     import copy
@@ -526,6 +818,11 @@ def gen_cases(rng, tier):
         yield mk_seq_case(rng, gen_hist(rng, 3 + k % 8, 1 + k % 4), ["none", "fail", "ok"][k % 3])
     for k in range(100 if tier == "quick" else 2000):
         yield mk_case(gen_hist(rng, 17 + k % 14, 1 + k % 5), "bigger")
+    for k in range(700 if tier == "quick" else 12000):
+        h = gen_hist(rng, 3 + k % 10, 1 + k % 4, exotic=(k % 9 == 0), prefix=(k % 9 == 1), width=(k % 9 == 2))
+        if k % 3 == 0:
+            G.add_noise_tags(rng, h)
+        yield mk_disk_case(h, gen_layout(rng, k))
     if tier == "thorough":
         for h in small_hists(4):
             yield mk_case(h, "exhaustive<=4")
@@ -536,6 +833,9 @@ def gen_cases(rng, tier):
 
 
 def search_cases(rng, tier):
+    for k, h in enumerate(small_hists(2)):
+        for mode in LAYOUT_MODES:
+            yield mk_disk_case(G.with_times(h), {"mode": mode, "seed": k}, "search-small-disk")
     for h in small_hists(4):
         yield mk_case(h, "search-small")
     for h in small_hists(3, names=("release/1.2", "release/1.10", "master")):
@@ -561,7 +861,16 @@ def corpus():
     h5 = {"commits": [{"p": [], "t": [[1, 0, 9998, 9998]], "m": 1}, {"p": [0], "t": [[1, 0, 9999, 9999]], "m": 1},
                       {"p": [1], "t": [[1, 0, 10000, 10000]], "m": 1}, {"p": [0], "t": [], "m": 0}],
           "refs": [["release/1.0", 2], ["master", 3]]}
-    return [mk_case(G.with_times(h4), "corpus-text-with-blank"), mk_case(G.with_times(h5), "corpus-build-9999"),
+    # refs read from a git directory: the build tags packed (the later one annotated, its `^` line ends the file, no
+    # line break after it), the branch a file
+    h6 = {"commits": [{"p": [], "t": [[1, 0, 9, 9]], "m": 1}, {"p": [0], "t": [[1, 0, 10, 10]], "m": 1},
+                      {"p": [1], "t": [], "m": 1}], "refs": [["release/1.0", 2]]}
+    sh = commit_shas(3, "corpus")
+    st6 = {"shas": sh, "loose": [["refs/remotes/origin/release/1.0", sh[2]]],
+           "packed": "%s\n%s refs/tags/build_10_release_1_0_success\n%s refs/tags/build_9_release_1_0_success\n^%s" % (
+               PACK_HEADERS[0], sh[1], "0" * 40, sh[0])}
+    disk = {"lines": ["repd " + G.enc_hist(G.with_times(h6)) + " " + enc_store(st6)], "meta": {"kind": "corpus-packed-refs"}}
+    return [disk, mk_case(G.with_times(h4), "corpus-text-with-blank"), mk_case(G.with_times(h5), "corpus-build-9999"),
             mk_case(G.with_times(h), "corpus-head-inside-lower-branch"),
             mk_case(h2, "corpus-head-older-than-lower-builds"), mk_case(G.with_times(h3), "corpus-prefix-names")]
 
@@ -573,17 +882,30 @@ def shrink(case):
             yield {"lines": [l], "meta": {"kind": case.get("meta", {}).get("kind", "?")}}
         return
     line = case["lines"][0]
-    op, *args = line.split()
-    h = G.dec_hist(*args)
+    h, store = line_hist(line)
     meta = dict(case.get("meta", {}))
+    layout = meta.get("layout")
+    if store is not None and layout is None:
+        return              # a fixed storage (corpus): kept as it is
 
     def mk(h2):
-        return {"lines": ["rep " + G.enc_hist(dict(h2, text=h["text"]))], "meta": meta}
+        h2 = dict(h2, text=h2.get("text", h["text"]))
+        if store is not None:
+            return mk_disk_case(h2, layout, meta.get("kind", "?"))
+        return {"lines": ["rep " + G.enc_hist(h2)], "meta": meta}
     n = len(h["commits"])
+    if store is not None:
+        # the same history without a git directory (then it is not about where the refs are kept), plainer layouts
+        yield {"lines": ["rep " + G.enc_hist(h)], "meta": {"kind": meta.get("kind", "?")}}
+        if layout.get("bad"):
+            yield mk_disk_case(h, {k: v for k, v in layout.items() if k != "bad"}, meta.get("kind", "?"))
+        for seed in (0, 1, 2):
+            if layout["seed"] != seed:
+                yield mk_disk_case(h, dict(layout, seed=seed), meta.get("kind", "?"))
     # a plainer search text (messages that contained the text get the new one, the others lose it)
     if h["text"] != TEXT:
         cs2 = [dict(c, msg=("fix %s" % TEXT) if c["m"] else "other") for c in h["commits"]]
-        yield {"lines": ["rep " + G.enc_hist({"commits": cs2, "refs": h["refs"], "text": TEXT})], "meta": meta}
+        yield mk({"commits": cs2, "refs": h["refs"], "text": TEXT})
     # drop a ref
     for i in range(len(h["refs"])):
         if len(h["refs"]) > 1:
@@ -627,8 +949,7 @@ def shrink(case):
 
 
 def nontrivial(case, replies):
-    op, *args = case["lines"][0].split()
-    h = G.dec_hist(*args)
+    h, _ = line_hist(case["lines"][0])
     for nm, hd in h["refs"]:
         if nm in ("master", "main") or nm.startswith("release/"):
             if any(h["commits"][c]["m"] for c in G.anc(h, hd)):
@@ -636,9 +957,53 @@ def nontrivial(case, replies):
     return False
 
 
+def store_tags(store):
+    """where the refs are kept"""
+    if not store_wellformed(store):
+        yield "store:malformed-packed-refs(not judged)"
+        return
+    yield "store:loose-refs:%s" % ("0" if not store["loose"] else "1+")
+    if store["packed"] is None:
+        yield "store:no-packed-refs-file"
+        return
+    text = store["packed"]
+    yield "store:packed-refs-ends-with-line-break" if text.endswith("\n") else "store:packed-refs-ends-without-line-break"
+    if "\r\n" in text:
+        yield "store:packed-refs-crlf"
+    lines = [l for l in text.replace("\r\n", "\n").split("\n") if l.strip()]
+    if not lines or not lines[0].startswith("#"):
+        yield "store:packed-refs-without-comment-line"
+    recs = []          # (name, has a ^ line)
+    for l in lines:
+        if l.startswith("^"):
+            recs[-1][1] = True
+        elif not l.startswith("#"):
+            recs.append([l.split(" ")[1], False])
+    if not recs:
+        yield "store:packed-refs-empty"
+        return
+    lnames = {n for n, _ in store["loose"]}
+    if any(n in lnames for n, _ in recs):
+        yield "store:outdated-packed-entry-of-a-loose-ref"
+    if any(p for _, p in recs):
+        yield "store:annotated-tags(^-lines)"
+    bt = [i for i, (n, _) in enumerate(recs) if is_build_tag_ref(n) and n not in lnames]
+    if 0 in bt:
+        yield "store:build-tag-in-first-record"
+    if any(0 < i < len(recs) - 1 for i in bt):
+        yield "store:build-tag-in-middle-record"
+    last, peeled = recs[-1]
+    what = "stale-entry" if last in lnames else "build-tag" if is_build_tag_ref(last) else \
+        "other-tag" if last.startswith("refs/tags/") else "branch-of-remote" if last.startswith("refs/remotes/origin/") else "other-ref"
+    yield "store:last-record=%s%s" % (what, "+^line" if peeled else "")
+
+
 def tags(case, replies):
     yield case.get("meta", {}).get("kind", "?")
     rep = replies[0]
+    h, store = line_hist(case["lines"][0])
+    if store is not None:
+        yield from store_tags(store)
     if not rep.startswith("ok"):
         yield "reply:" + rep[:30]
         return
@@ -648,8 +1013,6 @@ def tags(case, replies):
         yield "has-not-merged"
     if any(k == "N" and bn[0] == 8888 for _, bl in r for k, bn, _, _ in bl):
         yield "has-not-built"
-    op, *args = case["lines"][0].split()
-    h = G.dec_hist(*args)
     order = spec_order(h["refs"])
     if order is None:
         yield "order-not-judged"
@@ -692,8 +1055,16 @@ LEVEL_TEXT = ("Every clause of the property has a pinned, kernel-checked Lean th
               "(under_minimal_build), a matching commit contained in some build of the branch is listed (exactly_once) and at most "
               "once anywhere in the branch (at_most_once), 'not merged' lists exactly the matching commits of lower-sorted branches "
               "not reachable from the head (not_merged_exact), a build at an untagged commit is the branch head and is titled 'not "
-              "built', a build at a tagged commit is titled with the smallest of its tags' build numbers (build_title), the "
-              "entry titled 'not merged' is exactly the pseudo build without a commit of its own (pseudo_title), branches are read in a strict weak (total) order, numeric-aware, a "
+              "built', a build at a tagged commit is titled with the smallest of its tags' build numbers (build_title), and, "
+              "provided no tag of the repository has the number of a pseudo build (NoFakeTags: 9999.9999.9999 / 8888.8888.8888 are "
+              "not among the tags - on the real code a tag 9999.9999.9999 would be titled '- not merged -' and a tagged build "
+              "8888.8888.8888 '- not built -'; excluded by ASSUMPTIONS, never generated), an entry is titled 'not merged' if and "
+              "only if it is the pseudo build, which has no commit of its own, every other entry has a build commit, and an entry "
+              "is titled 'not built' if and only if its build commit carries no build tag (pseudo_title, both directions), "
+              "the tags and heads are what the git directory stores: every record of packed-refs is read, the last one included, "
+              "with or without a `^` line and a final line break (packed_refs_records), a ref is seen with the hexsha of its file or, "
+              "without a file, of its packed record, none lost, none invented (stored_refs_exact), and the tag names of a commit "
+              "are exactly the tag refs stored at its hexsha (stored_tag_names: 'builds being the tagged build commits'), branches are read in a strict weak (total) order, numeric-aware, a "
               "proper prefix first, names cut at exactly the separators read from the source (order_split_*), "
               "release below master (order_*), a commit matches exactly when the search text occurs in its message as it is "
               "(match_is_substring: the model computes the match flags from text and messages), and the report shows them reversed without empty branches "
@@ -709,6 +1080,10 @@ LEVEL_NOTE = ("Trusted: Lean kernel (axioms propext, Classical.choice, Quot.soun
               "2 branches in thorough). Tag names are parsed by the model (tag_release, tag_saved_version, tag_ignored: the two "
               "regular expressions of ProjectRepo, their literal pieces read by the translator); tag_unknown_version: a "
               "master-style tag on a commit without version file gets the code's '?.?.n'). The "
+              "The refs theorems are about the model of GitRepo.iter_refs that the driver executes on `repd` requests "
+              "(Model/GhistRefs.lean; marker characters, header words and peeled-line length read from the source) and assume a "
+              "packed-refs text of git's shape (comment lines, `<hexsha> <name>` lines without blanks in either word, 40-character "
+              "`^` lines) and distinct loose file names; malformed files are modelled (TypeError / ValueError) and compared only. "
               "theorems assume Hist.Topo (parents have smaller ids); report_total shows that the model always returns a report "
               "when the refs point to existing commits.")
 TECHNIQUE = ("Lean 4: invariants of the two nested DFS (well-formedness, frontier = nearest report ancestors, coverage of "
